@@ -6,6 +6,7 @@
 -/
 import LcdbModel.Lemmas.WFile
 import LcdbModel.Lemmas.WFileFs
+import LcdbModel.Lemmas.WFileAbs
 namespace Lcdb.WFile
 
 /-! ### 6. the EINTR / short-write loop -/
@@ -318,5 +319,78 @@ example : (setCurrentFile writeBuffer 5 { s := [.err .eio] }).rc = .err .eio ∧
 example : absGo (.tmp 5) (ptrBytes 5) (.ptr 5) [] (setCurrentFile writeBuffer 5 { w := [.ok 3, .err .eintr, .ok 3] }).ev =
     [.create (.tmp 5), .append (.tmp 5) (.ptr 5), .sync (.tmp 5), .rename (.tmp 5) .current, .syncDir] := by
   decide
+
+/-! ### 7. statuses without faults; the bridge to `Disk.Ev` -/
+
+/-- the environment never answers an error: every write(2) answer is a (possibly short, possibly zero-byte) transfer
+    or EINTR, and no answer of the other five scripts is an error other than EINTR -/
+def Oracle.NoFault (orc : Oracle) : Prop :=
+  (∀ a ∈ orc.w, a.isFault = false) ∧ (∀ a ∈ orc.s, a.isFault = false) ∧ (∀ a ∈ orc.o, a.isFault = false) ∧
+  (∀ a ∈ orc.c, a.isFault = false) ∧ (∀ a ∈ orc.r, a.isFault = false) ∧ (∀ a ∈ orc.u, a.isFault = false)
+
+/-- Under an oracle that never answers an error, EVERY status returned by any sequence of append / flush / sync is OK
+    (whatever the pattern of short writes and EINTR bursts on write, fsync and open). -/
+theorem no_fault_all_ok (cap : Nat) (m : Bool) (orc : Oracle) (hnf : Oracle.NoFault orc) (ops : List Op) :
+    ∀ rc ∈ (run cap (RunSt.init m orc) ops).rcs, rc = .ok :=
+  run_nf_ok cap ops (RunSt.init m orc) (init_inv cap m orc) ⟨hnf.1, hnf.2.1, hnf.2.2.1⟩ (by simp [RunSt.init])
+
+/-- ... and then, with `no_fault_transparent`, after a final sync everything appended is in the file and covered by
+    the last system call, a successful fsync -/
+theorem no_fault_sync_covers (cap : Nat) (m : Bool) (orc : Oracle) (hnf : Oracle.NoFault orc) (ops : List Op) :
+    let st := run cap (RunSt.init m orc) (ops ++ [.sync])
+    transferred st.tr = (ops.map opData).flatten ∧ st.f.buf = [] ∧ ∃ pre, st.tr = pre ++ [Sys.fsync false none] :=
+  sync_covers_everything cap m orc ops (no_fault_all_ok cap m orc hnf (ops ++ [.sync]))
+
+example : Oracle.NoFault { w := [.ok 1, .err .eintr, .ok 0, .half], s := [.err .eintr, .ok], o := [.err .eintr] } := by
+  refine ⟨?_, ?_, ?_, ?_, ?_, ?_⟩ <;> decide
+
+example : (run 4 (RunSt.init true { w := [.ok 1, .err .eintr, .ok 0, .half], s := [.err .eintr, .ok], o := [.err .eintr] })
+    [.append [1, 2, 3], .append [4, 5, 6], .sync, .append [7, 8, 9, 10, 11, 12, 13, 14, 15], .flush]).rcs
+    = [.ok, .ok, .ok, .ok, .ok] := by decide
+
+/-- **The bridge to the `Disk` model's events.**  For every op sequence `ops`, every oracle and every file name: if
+    `ops` followed by a sync all return OK, then the abstraction `absGo` of the system-call trace — with the record
+    `r` standing for the bytes appended before that sync, `full = (ops.map opData).flatten` — is
+
+        A ++ [append name r] ++ B ++ [sync name]        (A, B contain only `sync name` / `syncDir` events)
+
+    i.e. on `Disk.Ev`: the record is completed by exactly ONE `append` event (the write(2) after which the file holds
+    all of `full`, whatever the pattern of short writes, EINTR, buffer flushes and direct writes, and however the data
+    was cut into appends), and the `sync` contributed by the final sync op comes AFTER it: an OK sync covers everything
+    appended before it.  Earlier OK syncs of `ops` show up as the `sync` events of `A` (before the record was
+    complete) — none of them can follow the `append` except through `B` = syncs issued after completion. -/
+theorem ok_run_abstracts_write_then_sync (cap : Nat) (m : Bool) (orc : Oracle) (ops : List Op) (name : Disk.FName)
+    (r : Disk.Rec) (hne : (ops.map opData).flatten ≠ [])
+    (hok : ∀ rc ∈ (run cap (RunSt.init m orc) (ops ++ [.sync])).rcs, rc = .ok) :
+    ∃ A B, absGo name (ops.map opData).flatten r [] (run cap (RunSt.init m orc) (ops ++ [.sync])).tr
+        = A ++ [Disk.Ev.append name r] ++ B ++ [Disk.Ev.sync name] ∧ OnlySyncs name A ∧ OnlySyncs name B := by
+  obtain ⟨hT, _, pre, hpre⟩ := sync_covers_everything cap m orc ops hok
+  have hbody : ∀ e ∈ (run cap (RunSt.init m orc) (ops ++ [.sync])).tr, e.isBody = true :=
+    run_tr_isBody cap _ _ (by simp [RunSt.init])
+  rw [hpre] at hT hbody ⊢
+  have hpb : ∀ e ∈ pre, e.isBody = true := fun e he => hbody e (by simp [he])
+  have hTp : transferred pre = (ops.map opData).flatten := by
+    simpa [transferred_append, transferred] using hT
+  obtain ⟨A, B, e1, e2, e3⟩ := absGo_cross name _ r pre [] hpb (fun h => hne h.symm) (by simpa using hTp)
+  refine ⟨A, B, ?_, e2, e3⟩
+  rw [absGo_append_body name _ r pre [] _ hpb, e1]
+  simp [absGo]
+
+/-- the monitor of `Disk` sees the same thing: on the abstracted trace the record is in the file's body and below its
+    fsynced count (the shape `… append … sync` is what obligation O1 for a sync ack asks for) — concrete instance
+    (capacity 4): three appends cut differently from the writes, an intermediate sync, short writes and an EINTR -/
+example :
+    absGo (.log 1) [1, 2, 3, 4, 5, 6, 7] (.batch 9) []
+      (run 4 (RunSt.init false { w := [.ok 1, .err .eintr, .ok 1, .half] })
+        [.append [1, 2, 3], .sync, .append [4, 5, 6], .append [7], .sync]).tr
+      = [.sync (.log 1), .append (.log 1) (.batch 9), .sync (.log 1)] ∧
+    (run 4 (RunSt.init false { w := [.ok 1, .err .eintr, .ok 1, .half] })
+        [.append [1, 2, 3], .sync, .append [4, 5, 6], .append [7], .sync]).rcs = [.ok, .ok, .ok, .ok, .ok] := by decide
+
+/-- a MANIFEST: the directory sync precedes the write, the file sync follows it -/
+example :
+    absGo (.manifest 2) [1, 2, 3, 4, 5] (.chunk) []
+      (run 4 (RunSt.init true { w := [.ok 2] }) [.append [1, 2, 3, 4, 5], .sync]).tr
+      = [.syncDir, .append (.manifest 2) .chunk, .sync (.manifest 2)] := by decide
 
 end Lcdb.WFile
